@@ -86,41 +86,51 @@ def hfold (op : α → α → α) (reg : List α) : Option α :=
   | [] => none
   | r0 :: rs => some (rs.foldl op r0)
 
+/-- one step of the VERTICAL loop (`switch (out_tag)`): ACCUMULATE_PACKED / ACCUMULATE / nothing -/
+def vertStep (N : Nat) (packOp : List α → List α → List α) (op : α → α → α)
+    (inp : List α) (outShape inpShape : List Nat) (axis : Nat) (o : List α) (i : Nat) : Option (List α) := do
+  let (ot, it) ← reductionAt .vertical N outShape inpShape axis i
+  if ot.tag = Tag.ACCUMULATE_PACKED then do
+    let x ← loadu inp it.off N
+    let y ← loadu o ot.off N
+    storeu o ot.off (packOp y x)
+  else if ot.tag = Tag.ACCUMULATE then do
+    let x ← readAt inp it.off
+    let y ← readAt o ot.off
+    writeAt o ot.off (op y x)
+  else some o
+
 /-- VERTICAL: `out` pre-filled with `identity`; ACCUMULATE_PACKED / ACCUMULATE steps -/
 def simdReduceVertical (N : Nat) (packOp : List α → List α → List α) (op : α → α → α)
     (inp : List α) (outShape inpShape : List Nat) (axis : Nat) (out : List α) : Option (List α) :=
-  (List.range (reductionSize .vertical N inpShape axis)).foldlM (fun o i => do
-    let (ot, it) ← reductionAt .vertical N outShape inpShape axis i
-    if ot.tag = Tag.ACCUMULATE_PACKED then do
+  (List.range (reductionSize .vertical N inpShape axis)).foldlM (vertStep N packOp op inp outShape inpShape axis) out
+
+/-- one step of the HORIZONTAL loop: `switch (inp_tag)` then `switch (out_tag)`; state = (output buffer, accumulator) -/
+def horizStep (N : Nat) (packOp : List α → List α → List α) (op : α → α → α) (identity : α)
+    (inp : List α) (outShape inpShape : List Nat) (axis : Nat) (st : List α × List α) (i : Nat) :
+    Option (List α × List α) := do
+  let (ot, it) ← reductionAt .horizontal N outShape inpShape axis i
+  let accum ←
+    if it.tag = Tag.PACKED then do
       let x ← loadu inp it.off N
-      let y ← loadu o ot.off N
-      storeu o ot.off (packOp y x)
-    else if ot.tag = Tag.ACCUMULATE then do
-      let x ← readAt inp it.off
-      let y ← readAt o ot.off
-      writeAt o ot.off (op y x)
-    else some o) out
+      pure (packOp st.2 x)
+    else if 1 ≤ it.tag ∧ it.tag < (N : Int) then do
+      let k := it.tag.toNat
+      let x ← loadu inp it.off (N - k)                    -- element-wise copy of N-k elements
+      pure (packOp st.2 (x ++ List.replicate k identity))
+    else pure st.2
+  if ot.tag = Tag.ACCUMULATE then do
+    let r ← hfold op accum
+    let o ← writeAt st.1 ot.off r
+    pure (o, List.replicate N identity)
+  else pure (st.1, accum)
 
 /-- HORIZONTAL: state = (output buffer, vector accumulator) -/
 def simdReduceHorizontal (N : Nat) (packOp : List α → List α → List α) (op : α → α → α) (identity : α)
     (inp : List α) (outShape inpShape : List Nat) (axis : Nat) (out : List α) : Option (List α) :=
-  ((List.range (reductionSize .horizontal N inpShape axis)).foldlM (fun (st : List α × List α) i => do
-    let (o, accum) := st
-    let (ot, it) ← reductionAt .horizontal N outShape inpShape axis i
-    let accum ←
-      if it.tag = Tag.PACKED then do
-        let x ← loadu inp it.off N
-        pure (packOp accum x)
-      else if 1 ≤ it.tag ∧ it.tag < (N : Int) then do
-        let k := it.tag.toNat
-        let x ← loadu inp it.off (N - k)                    -- element-wise copy of N-k elements
-        pure (packOp accum (x ++ List.replicate k identity))
-      else pure accum
-    if ot.tag = Tag.ACCUMULATE then do
-      let r ← hfold op accum
-      let o ← writeAt o ot.off r
-      pure (o, List.replicate N identity)
-    else pure (o, accum)) (out, List.replicate N identity)).map (fun (st : List α × List α) => st.1)
+  ((List.range (reductionSize .horizontal N inpShape axis)).foldlM
+      (horizStep N packOp op identity inp outShape inpShape axis) (out, List.replicate N identity)).map
+    (fun (st : List α × List α) => st.1)
 
 /-- shape of the result "as if keepdims": extent 1 at `axis` -/
 def keepShape (shape : List Nat) (axis : Nat) : List Nat := shape.set axis 1
